@@ -121,6 +121,10 @@ def make_doc(spec):
         o.c = [FACETS[c % len(FACETS)]] + ([FACETS[(c // 7) % len(FACETS)]] if c >= 7 else [])
     for name, x in (("t", t), ("u", u)):
         if x != "-":
+            if 2000 <= x < 2100:
+                # same two words, different counts: a re-index that changes a term frequency but no word set
+                setattr(o, name, " ".join([WORDS[(x // 5) % len(WORDS)]] * (x % 5 + 1)) + " apple")
+                continue
             if x >= 1000:
                 # filler document: x-1000 distinct words, enough to spread a text index's word map and the
                 # lexicon over several BTree buckets (a change that marks only the tree's root then loses data)
@@ -151,6 +155,13 @@ def apply_op(cat, c, fail=None):
         cat.unindex_doc(c[3])
     elif op == "reset":
         cat.reset()
+    elif op == "setindex":
+        # Catalog.__setitem__ in a later transaction: the index stored under this name is replaced by a
+        # fresh, empty one of the same kind (its contents are gone) - the catalog object itself changes
+        name = c[3]
+        if name in cat:
+            fresh = make_catalog(c[4], [name], c[5])[name]
+            cat[name] = fresh
     else:
         raise ValueError(c)
 
@@ -203,6 +214,7 @@ def gen(rng, tier, idx):
     k = 0
 
     shared = rng.random() < 0.35
+    cutoff = rng.choice([2, 2, 10])
     seeds = [rng.randrange(60) for _ in range(2)]
     bigvocab = rng.random() < 0.3
     if bigvocab:
@@ -212,7 +224,13 @@ def gen(rng, tier, idx):
         k += 1
         seeds = [100 + rng.randrange(400) for _ in range(3)]
 
+    hotw = rng.randrange(10)
+
     def docspec():
+        if rng.random() < 0.15:
+            # term-frequency-only changes on one hot word (counts 1..5)
+            return [rng.randrange(3), rng.choice([1, 3, 7]), rng.choice([0, 1]), 2000 + hotw * 5 + rng.randrange(5),
+                    2000 + hotw * 5 + rng.randrange(5)]
         if bigvocab and rng.random() < 0.7:
             return [rng.randrange(3), rng.choice([1, 3, 7]), rng.choice([0, 1]), rng.choice(seeds),
                     100 + rng.randrange(400)]
@@ -229,8 +247,12 @@ def gen(rng, tier, idx):
         if r < 0.55:
             op = rng.choice(["index", "index", "reindex", "unindex", "reset"] if rng.random() < 0.1 else
                             ["index", "index", "index", "reindex", "unindex"])
+            if rng.random() < 0.04:
+                op = "setindex"
             d = rng.choice(ids)
-            if op in ("index", "reindex"):
+            if op == "setindex":
+                cmds.append(["op", k, "setindex", rng.choice(ALL), cutoff, 2])
+            elif op in ("index", "reindex"):
                 cmds.append(["op", k, op, d] + docspec())
             elif op == "unindex":
                 cmds.append(["op", k, "unindex", d])
@@ -285,7 +307,7 @@ def gen(rng, tier, idx):
     cmds.append(["commit"])
     cmds.append(["reopen"])
     cmds.append(["check"])
-    return {"session": "persist", "cfg": [["cfg", "ids", len(ids)], ["cfg", "cutoff", rng.choice([2, 2, 10])]],
+    return {"session": "persist", "cfg": [["cfg", "ids", len(ids)], ["cfg", "cutoff", cutoff]],
             "cmds": cmds}
 
 
